@@ -100,14 +100,15 @@ func probe(fn fnType, rec *Recorder) []string {
 	return out
 }
 
-func execItem(it CorpusItem, cfgs []jsonpath.Config, inject int, rec *Recorder) (fnType, itemOutcome) {
+func execItem(it CorpusItem, cfgs []jsonpath.Config, inject int, rec *Recorder) (fnType, itemOutcome, bool) {
 	simrt.OpStart()
 	fn, out := safeParse(it.Path, cfgs, inject)
+	fired := simrt.InjectionFired()
 	o := itemOutcome{Parse: out}
-	if fn != nil && simrt.Aborted() == 0 {
+	if fn != nil && simrt.Aborted() == 0 && !fired {
 		o.Probes = probe(fn, rec)
 	}
-	return fn, o
+	return fn, o, fired
 }
 
 // oneshot executes corpus item i as the first library call of this process.
@@ -118,7 +119,7 @@ func oneshot(seed uint64, i int, enc *json.Encoder) {
 		os.Exit(2)
 	}
 	simrt.SetMode(simrt.ModeOff)
-	_, o := execItem(items[i], cfgArgs(items[i].Cfg), 0, &Recorder{})
+	_, o, _ := execItem(items[i], cfgArgs(items[i].Cfg), 0, &Recorder{})
 	enc.Encode(map[string]interface{}{"t": "oneshot", "i": i, "outcome": o.String(), "path": items[i].Path, "cfg": items[i].Cfg.String()})
 }
 
@@ -200,13 +201,16 @@ func runC19() *RunResult {
 					cfgs = []jsonpath.Config{kept.cfg}
 					t.probe("config-value-reused")
 				}
-				fn, got := execItem(it, cfgs, inject, &t.rec)
+				fn, got, fired := execItem(it, cfgs, inject, &t.rec)
 				o.Got = got.String()
 				if simrt.Aborted() != 0 {
 					return
 				}
-				if inject > 0 && strings.Contains(got.Parse, "InjectedPanic") {
+				if inject > 0 && fired {
 					t.fault("injected-panic-in-parse")
+					if inject&1 != 0 {
+						t.fault("injected-panic-with-non-error-value")
+					}
 					return // the call hit by the fault is not judged; everything after it is
 				}
 				if inject > 0 {
